@@ -93,6 +93,29 @@ pub enum CEv {
     ProgBegin { idx: i32 },
     ProgEnd { idx: i32 },
     Sent { t: usize, v: i64, ow: bool },
+    /// A command sent through the kept commander number `idx` of the boundary regime.
+    BigSent { idx: u32, v: i64, ow: bool },
+    /// `create_commander` for `/many/<idx>` failed (CommanderIdOverflow).
+    RegFailed { idx: u32 },
+}
+
+/// Control lane values >= BIG_BASE select `CShared::big_programs[value - BIG_BASE]`.
+pub const BIG_BASE: i32 = 1_000_000;
+
+/// Steps of the boundary regime (ids around the end of the u16 commander id space). Target number n
+/// is node `/many/<n>`, lane `in` on the local plane (one runtime output per target that is sent to).
+#[derive(Clone, Debug, PartialEq, Eq)]
+pub enum BigStep {
+    /// Create and keep commanders for targets from..to (one registration each). A failed
+    /// registration is recorded; with `propagate` the handler then fails as user code normally would,
+    /// otherwise it goes on (so that what was accepted can still be exercised).
+    Create { from: u32, to: u32, propagate: bool },
+    /// Send through the kept commander of target `idx` (skipped when there is none).
+    Send { idx: u32, v: i64, queued: bool },
+}
+
+pub fn many_node(idx: u32) -> String {
+    format!("/many/{}", idx)
 }
 
 pub struct CShared {
@@ -104,6 +127,8 @@ pub struct CShared {
     pub start_cmdrs: Vec<(usize, Option<i64>)>,
     /// The kept commanders, by target.
     pub held: Mutex<HashMap<usize, Commander<CmdAgent>>>,
+    pub big_programs: Vec<Vec<BigStep>>,
+    pub held_many: Mutex<HashMap<u32, Commander<CmdAgent>>>,
 }
 
 impl CShared {
@@ -118,6 +143,19 @@ impl CShared {
             programs,
             start_cmdrs,
             held: Mutex::new(HashMap::new()),
+            big_programs: vec![],
+            held_many: Mutex::new(HashMap::new()),
+        })
+    }
+    pub fn new_big(clock: Arc<AtomicU64>, big_programs: Vec<Vec<BigStep>>) -> Arc<CShared> {
+        Arc::new(CShared {
+            clock,
+            trace: Mutex::new(vec![]),
+            programs: vec![],
+            start_cmdrs: vec![],
+            held: Mutex::new(HashMap::new()),
+            big_programs,
+            held_many: Mutex::new(HashMap::new()),
         })
     }
     fn rec(&self, ev: CEv) {
@@ -235,6 +273,103 @@ impl HandlerAction<CmdAgent> for HeldSend {
     }
 }
 
+struct CreateMany {
+    sh: Arc<CShared>,
+    next: u32,
+    to: u32,
+    propagate: bool,
+}
+
+impl HandlerAction<CmdAgent> for CreateMany {
+    type Completion = ();
+
+    fn step(
+        &mut self,
+        action_context: &mut ActionContext<CmdAgent>,
+        meta: swimos_agent::AgentMetadata,
+        context: &CmdAgent,
+    ) -> StepResult<Self::Completion> {
+        let hc: Ctx = HandlerContext::default();
+        while self.next < self.to {
+            let i = self.next;
+            self.next += 1;
+            let node = many_node(i);
+            let mut h = hc.create_commander(None, node.as_str(), "in");
+            match h.step(action_context, meta, context) {
+                StepResult::Complete { result, .. } => {
+                    self.sh.held_many.lock().insert(i, result);
+                }
+                StepResult::Fail(e) => {
+                    self.sh.rec(CEv::RegFailed { idx: i });
+                    if self.propagate {
+                        return StepResult::Fail(e);
+                    }
+                }
+                StepResult::Continue { .. } => {}
+            }
+        }
+        StepResult::done(())
+    }
+}
+
+struct BigSend {
+    sh: Arc<CShared>,
+    idx: u32,
+    v: i64,
+    queued: bool,
+    inner: Option<SendCommandById<i64>>,
+    skipped: bool,
+}
+
+impl HandlerAction<CmdAgent> for BigSend {
+    type Completion = ();
+
+    fn step(
+        &mut self,
+        action_context: &mut ActionContext<CmdAgent>,
+        meta: swimos_agent::AgentMetadata,
+        context: &CmdAgent,
+    ) -> StepResult<Self::Completion> {
+        if self.inner.is_none() && !self.skipped {
+            let existing = self.sh.held_many.lock().get(&self.idx).copied();
+            match existing {
+                Some(c) => {
+                    self.sh.rec(CEv::BigSent {
+                        idx: self.idx,
+                        v: self.v,
+                        ow: !self.queued,
+                    });
+                    self.inner = Some(send_through(c, self.v, self.queued));
+                }
+                None => self.skipped = true,
+            }
+        }
+        match self.inner.as_mut() {
+            Some(h) => HandlerAction::<CmdAgent>::step(h, action_context, meta, context),
+            None => StepResult::done(()),
+        }
+    }
+}
+
+fn big_handler(sh: Arc<CShared>, step: BigStep) -> Box<dyn EventHandler<CmdAgent> + Send + 'static> {
+    match step {
+        BigStep::Create { from, to, propagate } => Box::new(CreateMany {
+            sh,
+            next: from,
+            to,
+            propagate,
+        }),
+        BigStep::Send { idx, v, queued } => Box::new(BigSend {
+            sh,
+            idx,
+            v,
+            queued,
+            inner: None,
+            skipped: false,
+        }),
+    }
+}
+
 #[lifecycle(CmdAgent)]
 impl CmdLifecycle {
     #[on_start]
@@ -275,10 +410,19 @@ impl CmdLifecycle {
             .cloned()
             .unwrap_or_default();
         let (sh1, sh2) = (sh.clone(), sh.clone());
-        let steps: Vec<_> = prog
-            .into_iter()
-            .map(|a| act_handler(context, sh.clone(), a))
-            .collect();
+        let steps: Vec<Box<dyn EventHandler<CmdAgent> + Send + 'static>> = if idx >= BIG_BASE {
+            sh.big_programs
+                .get((idx - BIG_BASE) as usize)
+                .cloned()
+                .unwrap_or_default()
+                .into_iter()
+                .map(|st| big_handler(sh.clone(), st))
+                .collect()
+        } else {
+            prog.into_iter()
+                .map(|a| act_handler(context, sh.clone(), a))
+                .collect()
+        };
         context
             .effect(move || sh1.rec(CEv::ProgBegin { idx }))
             .followed_by(Sequentially::new(steps))
